@@ -476,6 +476,9 @@ func (w *World) mutateChildInIteration(in atree.Value, ch *MCont, salt int) *Vio
 		}
 		for j := 0; j < cnt; j++ {
 			km := MU64(uint64(800000 + salt*7 + j))
+			if _, refuse := w.collisionRefusal(ch, km, ch.findKey(km)); refuse {
+				continue
+			}
 			s := strFor(900000+salt*7+j, 10+salt%80)
 			old, err := x.Set(w.cmp, w.hip, w.valueOfKey(km), Str{s})
 			if err != nil {
